@@ -311,7 +311,7 @@ func (c *SCase[T]) selChan() (interface{}, uintptr, bool) {
 	}
 	return c.ch, chanPtr(c.ch), false
 }
-func (c *SCase[T]) selSend() (bool, interface{})       { return true, c.v }
+func (c *SCase[T]) selSend() (bool, interface{})      { return true, c.v }
 func (c *SCase[T]) selDeliver(v interface{}, ok bool) {}
 
 type RCase[T any] struct {
